@@ -2937,6 +2937,12 @@ def _is_octets_type(ex, v):
     return ex.isinstance1(v, 'bytes')
 
 
+def _consumed_model(ex, substrate):
+    pos = substrate.methods['tell'](ex, substrate) if 'tell' in substrate.methods else substrate.fields['pos']
+    dropped = substrate.fields.get('droppedOctets', 0)
+    return pos if (isinstance(dropped, int) and dropped == 0) else toint(pos) + toint(dropped)
+
+
 def default_globals():
     """names every pyasn1 module imports: read from the repo's AST where they are constants
     (pyasn1/type/tag.py), modelled from compat/octets.py's python-3 branch otherwise."""
@@ -2958,6 +2964,9 @@ def default_globals():
             'eoo': {'endOfOctets': END_OF_OCTETS, '__name__': 'eoo'},
             'SubstrateUnderrunError': ClassV('SubstrateUnderrunError'),
             'PyAsn1Error': ClassV('PyAsn1Error'),
+            # ber.decoder._consumed (contract ber.decoder::_consumed): tell() + droppedOctets; the stream models of the
+            # decoder contracts number their positions absolutely (nothing dropped)
+            '_consumed': FnV(_consumed_model, '_consumed'),
         }
     return _DG
 
